@@ -197,14 +197,20 @@ func (c *channel) Close(err error) {
 	verifPoint(c, "c.cas")
 	if atomic.CompareAndSwapInt32(&c.closed, 0, 1) {
 
-		// wait async send finished.
+		// wait async send finished: take over the sender role (an idle flag alone may be
+		// observed while packets are still queued), then send what is left in the queue.
 		if nil != c.writeQueue {
 			var maxWaitNum int
 			verifPoint(c, "c.poll")
-			for (c.untilWrite || maxWaitNum < 10) && atomic.LoadInt32(&c.running) != idle {
+			owner := atomic.CompareAndSwapInt32(&c.running, idle, running)
+			for !owner && (c.untilWrite || maxWaitNum < 10) {
 				maxWaitNum++
 				time.Sleep(time.Millisecond * 100)
 				verifPoint(c, "c.poll")
+				owner = atomic.CompareAndSwapInt32(&c.running, idle, running)
+			}
+			if owner {
+				c.writeOnce()
 			}
 		}
 
